@@ -1523,6 +1523,8 @@ def run(ctx):
     # ------------------------------------------------------------------ 1. Coq
     vfiles = ["SolveCount/CountModel.v", "SolveCount/CountProofs.v", "SolveCount/DeterminingGj.v",
               "SolveCount/DeterminingProofs.v", "SolveCount/DeterminingCount.v", "SolveCount/DeterminingExamples.v",
+              "SolveCount/DeterminingLinkModel.v", "SolveCount/DeterminingLinkProofs.v", "SolveCount/DeterminingLinkJoin.v",
+              "SolveCount/DeterminingLinkExamples.v",
               "Properties_C20.v"]
     have_coq = all(os.path.exists(os.path.join(vplib.COQDIR, v)) for v in vfiles)
     coq_ok = False
